@@ -247,6 +247,7 @@ theorem isIndirect_spec {w : Rule.Heap} {p : Int} {l : ModVerif.Modfile.Line} (h
         simp only [hg, bind, Except.bind, lineG_Comments, comsG_Suffix, List.map_cons, h0, decide_false, Bool.false_eq_true, if_false,
           idxL_zero_cons, comG_Token, hfe, hfe']
         simp [len_eq, pure, Except.pure, idxL_zero_cons, B_indirect]
+        by_cases ha : a = [105, 110, 100, 105, 114, 101, 99, 116] <;> simp [ha]
       | cons b t =>
         have hfe' : GoStrings.fields (GoStrings.trimPrefix c.token [47, 47]) = a :: b :: t := hfe
         have h1 : ¬ (len (a :: b :: t) = 1) := by simp [len_eq]; omega
@@ -256,5 +257,156 @@ theorem isIndirect_spec {w : Rule.Heap} {p : Int} {l : ModVerif.Modfile.Line} (h
           idxL_zero_cons, comG_Token, hfe, hfe', h1, h2, decide_true, if_true, pure, Except.pure, B_indirect2]
         congr 2
         rw [Bool.eq_iff_iff]; simp
+
+/-! ### parseDirectiveComment, parseDeprecation -/
+
+/-- the `//` comments of a group, without the marker, trimmed -/
+def dcLines (cs : List ModVerif.Modfile.Comment) : List Bytes :=
+  cs.filterMap fun c => if isPrefixOfB [47, 47] c.token then some (GoStrings.trimSpace (c.token.drop 2)) else none
+
+theorem dcLines_cons (c : ModVerif.Modfile.Comment) (cs : List ModVerif.Modfile.Comment) :
+    dcLines (c :: cs) = (if isPrefixOfB [47, 47] c.token then [GoStrings.trimSpace (c.token.drop 2)] else []) ++ dcLines cs := by
+  unfold dcLines
+  by_cases h : isPrefixOfB [47, 47] c.token = true <;> simp [List.filterMap_cons, h]
+
+theorem loop2_spec (cs : List ModVerif.Modfile.Comment) (w : Rule.Heap) : ∀ (fuel k : Nat) (acc : List Bytes),
+    k ≤ cs.length → cs.length - k < fuel →
+    Rule.parseDirectiveComment_loop2 (cs.map comG) w fuel (k : Int) acc = .ok ((cs.length : Int), acc ++ dcLines (cs.drop k))
+  | 0, _, _, _, hf => by omega
+  | fuel + 1, k, acc, hk, hf => by
+    unfold Rule.parseDirectiveComment_loop2
+    by_cases hlt : k < cs.length
+    · have h1 : (k : Int) < len (cs.map comG) := by simp [len_eq]; omega
+      have h2 : ¬ ((k : Int) < 0) := by omega
+      have hget : (cs.map comG)[k]? = some (comG cs[k]) := by simp [List.getElem?_eq_getElem hlt]
+      have hd : cs.drop k = cs[k] :: cs.drop (k + 1) := List.drop_eq_getElem_cons hlt
+      have ih := fun acc' => loop2_spec cs w fuel (k + 1) acc' (by omega) (by omega)
+      have hk1 : ((k : Int) + 1) = ((k + 1 : Nat) : Int) := by omega
+      have hidx : idxL (cs.map comG) (k : Int) = .ok (comG cs[k]) := by
+        simp only [idxL, h2, if_false, Int.toNat_natCast, hget]; rfl
+      simp only [h1, decide_true, if_true, hidx, bind, Except.bind, pure, Except.pure, comG_Token, hasPrefix,
+        hk1, ih, hd, dcLines_cons]
+      by_cases hp : isPrefixOfB [47, 47] cs[k].token = true
+      · simp [hp, GoRt.trimSpace, GoRt.trimPrefix]
+      · simp [hp]
+    · have hke : k = cs.length := by omega
+      have h1 : ¬ ((k : Int) < len (cs.map comG)) := by simp [len_eq]; omega
+      simp only [h1, decide_false, Bool.false_eq_true, if_false, pure, Except.pure]
+      subst hke
+      simp [dcLines]
+
+theorem loop1_spec (c1 c2 : List ModVerif.Modfile.Comment) (w : Rule.Heap) (fuel : Nat) (hf : c1.length + c2.length + 3 ≤ fuel) :
+    Rule.parseDirectiveComment_loop1 [c1.map comG, c2.map comG] w fuel 0 [] = .ok (2, dcLines c1 ++ dcLines c2) := by
+  obtain ⟨f, rfl⟩ : ∃ f, fuel = f + 3 := ⟨fuel - 3, by omega⟩
+  have e1 := loop2_spec c1 w (f + 2) 0 [] (by omega) (by omega)
+  have e2 := loop2_spec c2 w (f + 1) 0 (dcLines c1) (by omega) (by omega)
+  have e1' : Rule.parseDirectiveComment_loop2 (c1.map comG) w (f + 2) 0 [] = .ok ((c1.length : Int), dcLines c1) := by
+    simpa using e1
+  have e2' : Rule.parseDirectiveComment_loop2 (c2.map comG) w (f + 1) 0 (dcLines c1) = .ok ((c2.length : Int), dcLines c1 ++ dcLines c2) := by
+    simpa using e2
+  unfold Rule.parseDirectiveComment_loop1
+  have h0 : (0 : Int) < len [c1.map comG, c2.map comG] := by simp [len_eq]
+  simp only [h0, decide_true, if_true, idxL_zero_cons, bind, Except.bind, e1']
+  unfold Rule.parseDirectiveComment_loop1
+  have h1 : (0 : Int) + 1 < len [c1.map comG, c2.map comG] := by simp [len_eq]
+  have h1' : idxL [c1.map comG, c2.map comG] ((0 : Int) + 1) = .ok (c2.map comG) := rfl
+  simp only [h1, decide_true, if_true, h1', bind, Except.bind, e2']
+  unfold Rule.parseDirectiveComment_loop1
+  have h2 : ¬ ((0 : Int) + 1 + 1 < len [c1.map comG, c2.map comG]) := by simp [len_eq]
+  simp [h2, pure, Except.pure]
+
+/-- the comments `parseDirectiveComment` reads -/
+def dcChoose (bc : Option ModVerif.Modfile.Comments) (lc : ModVerif.Modfile.Comments) : ModVerif.Modfile.Comments :=
+  match bc with
+  | some bc => if lc.before.isEmpty && lc.suffix.isEmpty then bc else lc
+  | none => lc
+
+theorem parseDirectiveComment_model (bc : Option ModVerif.Modfile.Comments) (lc : ModVerif.Modfile.Comments) :
+    ModVerif.Modfile.parseDirectiveComment bc lc = GoStrings.join (dcLines (dcChoose bc lc).before ++ dcLines (dcChoose bc lc).suffix) [10] := by
+  unfold ModVerif.Modfile.parseDirectiveComment dcChoose dcLines
+  cases bc <;> simp [List.filterMap_append]
+
+/-- number of comments `parseDirectiveComment` may walk over -/
+def comLen (c : ModVerif.Modfile.Comments) : Nat := c.before.length + c.suffix.length
+
+/-- the block argument: nil, or a block object of the heap -/
+def BlockArg (w : Rule.Heap) (block : Int) : Option ModVerif.Modfile.Comments → Prop
+  | none => block = 0
+  | some c => ∃ B, heapGet w.blocks block = .ok B ∧ B.Comments = comsG c
+
+theorem BlockArg.ofBlock {w : Rule.Heap} {block : Int} {b : ModVerif.Modfile.LineBlock} {ps : List Int}
+    (h : heapGet w.blocks block = .ok (blockG b ps)) : BlockArg w block (some b.comments) := ⟨_, h, rfl⟩
+
+theorem parseDirectiveComment_spec {w : Rule.Heap} {block p : Int} {l : ModVerif.Modfile.Line} {bc : Option ModVerif.Modfile.Comments}
+    (hg : heapGet w.lines p = .ok (lineG l)) (hb : BlockArg w block bc) (fuel : Nat)
+    (hf : comLen l.comments + (bc.map comLen).getD 0 + 3 ≤ fuel) :
+    Rule.parseDirectiveComment fuel block p w = .ok (ModVerif.Modfile.parseDirectiveComment bc l.comments, w) := by
+  rw [parseDirectiveComment_model]
+  unfold Rule.parseDirectiveComment
+  have hgl : Rule.Expr_getComments (Rule.Expr.Line p) w = .ok (comsG l.comments) := by
+    simp [Rule.Expr_getComments, hg, bind, Except.bind, pure, Except.pure]
+  cases bc with
+  | none =>
+    have hb0 : block = 0 := hb
+    subst hb0
+    simp only [comLen, Option.map_none, Option.getD_none] at hf
+    simp only [decide_true, Bool.not_true, Bool.false_eq_true, if_false, bind, Except.bind, pure, Except.pure, hgl, comsG_Before,
+      comsG_Suffix, dcChoose]
+    rw [loop1_spec _ _ w fuel (by omega)]
+    rfl
+  | some c =>
+    obtain ⟨B, hB, hBc⟩ := hb
+    have hne : ¬ (block = 0) := by
+      intro h0; have := heapGet_pos hB; omega
+    have hgb : Rule.Expr_getComments (Rule.Expr.LineBlock block) w = .ok (comsG c) := by
+      simp [Rule.Expr_getComments, hB, hBc, bind, Except.bind, pure, Except.pure]
+    simp only [comLen, Option.map_some, Option.getD_some] at hf
+    simp only [hne, decide_false, Bool.not_false, if_true, bind, Except.bind, pure, Except.pure, hgl, comsG_Before, comsG_Suffix, dcChoose]
+    by_cases h1 : l.comments.before = []
+    · by_cases h2 : l.comments.suffix = []
+      · simp only [h1, h2, List.map_nil, len_eq, List.length_nil, Int.natCast_zero, decide_true, if_true, List.isEmpty_nil, Bool.and_self, hgb,
+          comsG_Before, comsG_Suffix]
+        rw [loop1_spec _ _ w fuel (by omega)]
+        rfl
+      · have h2' : ¬ ((l.comments.suffix.map comG).length : Int) = 0 := by
+          cases hs : l.comments.suffix with
+          | nil => exact absurd hs h2
+          | cons a t => simp; omega
+        have h2'' : l.comments.suffix.isEmpty = false := by
+          cases hs : l.comments.suffix with
+          | nil => exact absurd hs h2
+          | cons a t => rfl
+        simp only [h1, List.map_nil, len_eq, List.length_nil, Int.natCast_zero, decide_true, if_true, h2', decide_false, Bool.false_eq_true,
+          if_false, hgl, comsG_Before, comsG_Suffix, List.isEmpty_nil, h2'', Bool.and_false]
+        have e := loop1_spec l.comments.before l.comments.suffix w fuel (by omega)
+        rw [h1] at e
+        simp only [List.map_nil] at e
+        rw [e]
+        rfl
+    · have h1' : ¬ ((l.comments.before.map comG).length : Int) = 0 := by
+        cases hs : l.comments.before with
+        | nil => exact absurd hs h1
+        | cons a t => simp; omega
+      have h1'' : l.comments.before.isEmpty = false := by
+        cases hs : l.comments.before with
+        | nil => exact absurd hs h1
+        | cons a t => rfl
+      simp only [len_eq, h1', decide_false, Bool.false_eq_true, if_false, hgl, comsG_Before, comsG_Suffix, h1'', Bool.false_and]
+      rw [loop1_spec _ _ w fuel (by omega)]
+      rfl
+
+theorem parseDeprecation_spec {w : Rule.Heap} {block p : Int} {l : ModVerif.Modfile.Line} {bc : Option ModVerif.Modfile.Comments}
+    (hg : heapGet w.lines p = .ok (lineG l)) (hb : BlockArg w block bc) (fuel : Nat)
+    (hf : comLen l.comments + (bc.map comLen).getD 0 + 3 ≤ fuel) :
+    Rule.parseDeprecation deprecatedSubI fuel block p w = .ok (ModVerif.Modfile.parseDeprecation bc l.comments, w) := by
+  cases hd : ModVerif.Modfile.deprecatedRE (ModVerif.Modfile.parseDirectiveComment bc l.comments) with
+  | none =>
+    unfold Rule.parseDeprecation ModVerif.Modfile.parseDeprecation
+    rw [parseDirectiveComment_spec hg hb fuel hf]
+    simp [bind, Except.bind, deprecatedSubI, hd, pure, Except.pure]
+  | some m =>
+    unfold Rule.parseDeprecation ModVerif.Modfile.parseDeprecation
+    rw [parseDirectiveComment_spec hg hb fuel hf]
+    simp [bind, Except.bind, deprecatedSubI, hd, pure, Except.pure, idxL_one_cons]
 
 end ModVerif.Tie.FnRuleLeafA
